@@ -23,6 +23,9 @@ def conformance(tier, tag):
     build_harness()
     runs = [("MC_Parse", "MC_Parse_q1.cfg" if tier == "quick" else "MC_Parse_t1.cfg", "mut"),
             ("MC_ParseGen", "MC_ParseGen_q1.cfg" if tier == "quick" else "MC_ParseGen_t1.cfg", "gen")]
+    if tier == "quick":
+        # a second prefix exploration: shorter prefixes over the larger alphabet (pointers, generics, every item keyword)
+        runs.append(("MC_ParseGen", "MC_ParseGen_q2.cfg", "gen2"))
     cnt = {"mutants": 0, "prefixes": 0, "dead_extensions": 0, "prints": 0, "spec_accepts": 0, "spec_accepts_other_module": 0,
            "spec_rejects_at_token": 0, "spec_rejects_lexer": 0, "spec_rejects_at_end": 0}
     problems = []
@@ -34,7 +37,7 @@ def conformance(tier, tag):
             raise ToolError(f"{module}: the specification violates its own invariant: " + st["violation"]["text"][:2000])
         cases = os.path.join(d, "REPLAY.ndjson")
         obs = os.path.join(d, "ptoks.ndjson")
-        k = 2 if tier == "quick" else (4 if name == "mut" else 1)
+        k = (1 if name == "gen2" else 2) if tier == "quick" else (4 if name == "mut" else 1)
         p = subprocess.run([PVH, "ptoks", "--in", cases, "--out", obs, "--n", str(k), "--seed", str(seed())],
                            stdout=subprocess.PIPE, stderr=subprocess.STDOUT, text=True)
         if p.returncode != 0:
